@@ -26,7 +26,12 @@ impl TestServer {
             let rt = tokio::runtime::Builder::new_multi_thread().worker_threads(3).enable_all().build().unwrap();
             let port = free_port();
             let pd = kvarn::PortDescriptor::unsecure(port, data.clone()).ipv4_only();
-            let mgr = rt.block_on(async move { kvarn::RunConfig::new().bind(pd).disable_ctl().execute().await });
+            // binding happens inside `execute()` and panics if the port was taken since `free_port()` looked: another port then
+            let started = std::panic::catch_unwind(std::panic::AssertUnwindSafe(|| rt.block_on(async move { kvarn::RunConfig::new().bind(pd).disable_ctl().execute().await })));
+            let Ok(mgr) = started else {
+                rt.shutdown_background();
+                continue;
+            };
             for _ in 0..400 {
                 if TcpStream::connect_timeout(&SocketAddr::from(([127, 0, 0, 1], port)), Duration::from_millis(50)).is_ok() {
                     return Some(TestServer { port, mgr, rt });
